@@ -551,6 +551,118 @@ def r14g(ctx, rep, rule="R14g", only=None, skip=("marwood::vm::builtin::string::
     rep.floor(rule, "cdr-walking loops with an is_pair exit in the builtins%s" % (" (%s)" % only if only else ""), n, floor)
 
 
+def r14h(ctx, rep, rule="R14h"):
+    from . import prelude as P
+    rep.rule(rule, "length (prelude.scm) counts only proper lists: every clause of its loop that returns a count without "
+             "recursing is guarded by a `null?` test of the cursor (or of its cdr); a weaker test such as `(not (pair? ..))` "
+             "returns a count for an improper list where R7RS requires an error.")
+    try:
+        macros, forms, path = P.load_macros(ctx["root"])
+    except (OSError, IndexError):
+        rep.anchor_lost(rule, "prelude.scm")
+        return
+    d = None
+    for fm in forms:
+        if isinstance(fm, list) and len(fm) >= 3 and fm[0] == "define" and isinstance(fm[1], list) and fm[1] and fm[1][0] == "length":
+            d = fm
+    if d is None:
+        rep.anchor_lost(rule, "definition of length in prelude.scm")
+        return
+    loops = set()
+
+    def names(x):
+        # named-let labels and the procedure itself are the recursion targets
+        if isinstance(x, list) and x:
+            if x[0] == "let" and len(x) > 2 and isinstance(x[1], P.Sym):
+                loops.add(str(x[1]))
+            for y in x:
+                names(y)
+    names(d)
+    loops.add("length")
+
+    def mentions(x, ns):
+        if isinstance(x, P.Sym):
+            return str(x) in ns
+        if isinstance(x, list):
+            return any(mentions(y, ns) for y in x)
+        return False
+
+    def is_null_test(t):
+        return isinstance(t, list) and len(t) == 2 and t[0] == "null?"
+
+    exits = []
+
+    def show(x):
+        if isinstance(x, list):
+            return "(" + " ".join(show(y) for y in x) + ")"
+        if isinstance(x, tuple):
+            return str(x[1])
+        return str(x)
+
+    def walk(x):
+        if isinstance(x, list) and x:
+            if x[0] == "cond":
+                for cl in x[1:]:
+                    if isinstance(cl, list) and cl:
+                        test, body = cl[0], cl[1:]
+                        if test != "else" and body and not mentions(body, loops) and not mentions(body, {"error"}):
+                            exits.append((test, body))
+            if x[0] == "if" and len(x) >= 3:
+                test, then = x[1], x[2]
+                if not mentions(then, loops) and not mentions(then, {"error"}) and not (isinstance(then, list) and then and then[0] in ("let", "cond", "if")):
+                    exits.append((test, [then]))
+            for y in x:
+                walk(y)
+    walk(d)
+    if not exits:
+        rep.anchor_lost(rule, "count-returning clauses in length")
+        return
+    for i, (test, body) in enumerate(exits):
+        ok = is_null_test(test)
+        (rep.ok if ok else rep.fail)(rule, "%s|length|exit#%d" % (rule, i + 1),
+                                     "length returns %s only under %s" % (show(body[-1]), show(test)) if ok else
+                                     "length returns %s under the test %s, which also holds when the list ends in something other than "
+                                     "the empty list: an improper list gets a length instead of an error" % (show(body[-1]), show(test)))
+    rep.floor(rule, "count-returning clauses in length", len(exits), 2)
+
+
+def r14i(ctx, rep, rule="R14i"):
+    from .C15 import _payload_root, compared_before
+    facts = ctx["facts"]
+    rep.rule(rule, "a clamping helper is called only with validated indices: Vector::clone_vector clamps its optional start / end "
+             "to the vector's extent instead of failing, so each builtin that calls it must have compared every index it "
+             "passes (when present) on every path to the call — otherwise an out-of-range index yields an empty or "
+             "truncated vector where an error is required.")
+    n = 0
+    for p, f in sorted(facts.fns.items()):
+        if not p.startswith("marwood::vm::builtin::") or "::{closure" in p:
+            continue
+        for bb, t in f.calls():
+            if callee(t) != "marwood::vm::vector::Vector::clone_vector":
+                continue
+            nm = f.short.rsplit("::", 1)[-1]
+            for k, what in ((1, "start"), (2, "end")):
+                if k >= len(t["args"]):
+                    continue
+                n += 1
+                c = op_const(t["args"][k])
+                o = f.origin(t["args"][k])
+                key = "%s|%s|%s" % (rule, nm, what)
+                if c is not None or o[0] == "const" or (o[0] == "rv" and o[1]["rv"]["k"] == "agg" and o[1]["rv"].get("variant") == "None"):
+                    rep.ok(rule, key, "%s passes a constant / None as %s" % (nm, what), [t["loc"]], nontrivial=False)
+                    continue
+                root = _payload_root(f, t["args"][k])
+                if root is None:
+                    rep.fail(rule, key, "%s: the %s handed to clone_vector could not be traced to an optional index variable" % (nm, what), [t["loc"]])
+                    continue
+                ok = compared_before(f, bb, root)
+                (rep.ok if ok else rep.fail)(rule, key, "%s compares %s on every path before clone_vector" % (nm, what) if ok else
+                                             "%s can reach Vector::clone_vector with a %s it has not compared with anything: "
+                                             "clone_vector clamps it, so an out-of-range %s silently gives a shorter vector instead of "
+                                             "an error" % (nm, what, what), [t["loc"]])
+    rep.floor(rule, "optional indices handed to Vector::clone_vector", n, 2)
+
+
 def run(ctx, rep):
     r14a(ctx, rep)
     r14b(ctx, rep)
@@ -559,6 +671,8 @@ def run(ctx, rep):
     r14e(ctx, rep)
     r14f(ctx, rep)
     r14g(ctx, rep)
+    r14h(ctx, rep)
+    r14i(ctx, rep)
     from . import C06
     C06.r06a_restricted(ctx, rep, "R14p", ["marwood::vm::builtin::vector::", "marwood::vm::builtin::list::", "marwood::vm::vector::", "marwood::vm::compare::"],
                         "the list and vector procedures never abort", 20)
